@@ -1,6 +1,6 @@
 (* Runner entry points: one number per executable model function.  The Python
    harness reads the "(* ENTRY n name *)" comments to build its name table. *)
-From HX Require Import Model.Base Model.Cell Model.EmitterEntry.
+From HX Require Import Model.Base Model.Cell Model.EmitterEntry Model.Serial Model.DateFns.
 
 Definition dispatch (e : Z) (a : list Z) : list Z :=
   match e with
@@ -10,5 +10,14 @@ Definition dispatch (e : Z) (a : list Z) : list Z :=
   | 1904 => e_row_i2l a    (* ENTRY 1904 row_i2l *)
   | 1905 => e_extract a    (* ENTRY 1905 extract *)
   | 2001 => e_emitter a    (* ENTRY 2001 emitter *)
+  | 1301 => e_serial a     (* ENTRY 1301 serial *)
+  | 1302 => e_parse_serial a (* ENTRY 1302 parse_serial *)
+  | 1401 => e_DATE a       (* ENTRY 1401 DATE *)
+  | 1402 => e_TIME a       (* ENTRY 1402 TIME *)
+  | 1403 => e_WEEKDAY a    (* ENTRY 1403 WEEKDAY *)
+  | 1404 => e_DATEDIF a    (* ENTRY 1404 DATEDIF *)
+  | 1405 => e_DAYS a       (* ENTRY 1405 DAYS *)
+  | 1406 => e_EDATE a      (* ENTRY 1406 EDATE *)
+  | 1407 => e_serial_fields a (* ENTRY 1407 serial_fields *)
   | _ => [-999]
   end.
